@@ -131,6 +131,10 @@ func canon(s []span) ([]span, error) {
 			next := s[j]
 			if !this.max.equal(next.min) { // If equal, we can merge unless both are open (handled below)
 				if len(this.max.pre) == 0 {
+					if this.maxOpen && this.max.lessThan(next.min) {
+						// The excluded max lies between the two; cannot merge.
+						break
+					}
 					maxPlusOne := this.max.copy()
 					err := maxPlusOne.inc()
 					if err != nil {
